@@ -533,10 +533,12 @@ func kindsOf(ws []write) []map[string]interface{} {
 
 // modeOf: how the first block written by the call relates to the head before the call.
 func (fx *fixtureT) modeOf(seg []string, ws []write, headBefore common.Hash) string {
-	for _, n := range seg {
-		for _, w := range ws {
-			if w.kind == "body:"+n {
-				if fx.blocks[n].ParentHash() == headBefore {
+	// the first block whose body the call stores -- not necessarily a block of the segment: the re-import of a side chain
+	// starts with blocks stored by earlier calls
+	for _, w := range ws {
+		if strings.HasPrefix(w.kind, "body:") {
+			if b, ok := fx.blocks[w.kind[5:]]; ok {
+				if b.ParentHash() == headBefore {
 					return "extend"
 				}
 				return "reorg"
